@@ -765,6 +765,24 @@ def termination(ctx):
                         break
             if cand:
                 drv = body.blocks[cand[0]]["term"]["func"]["full"]
+            if drv is None:
+                # a read loop: every iteration calls read_until / read_line / read on a reader and goes round again only if that consumed at
+                # least one byte (n == 0 leaves the loop) -- the same progress argument as iterating io::Split / io::Lines over the reader
+                rd = [bb for bb in sorted(blks) if body.blocks[bb]["term"]["k"] == "call" and mir.norm_path(body.blocks[bb]["term"]["func"]["path"]).rsplit("::", 1)[-1] in ("read_until", "read_line", "read")
+                      and ("BufRead" in body.blocks[bb]["term"]["func"]["path"] or "io::Read" in body.blocks[bb]["term"]["func"]["path"])
+                      and all(body.dominates(bb, u) for (u, v) in body.back_edges if v == h)]
+                if rd:
+                    backs_ = [p for p in ctx.paths(key) if p.end[0] == "back" and p.end[1] == h]
+                    okr = bool(backs_)
+                    for p in backs_:
+                        ev_ = [e for e in p.events if e.kind == "call" and e.bb == rd[0]]
+                        nz = [c for c in p.conds() if ev_ and isinstance(c.term, tuple) and c.term[0] == "binop" and c.term[1] in ("Eq", "Ne", "Gt") and const_int(c.term[3]) == 0
+                              and mentions(c.term[2], lambda s_: s_ == ev_[0].term)]
+                        okr = okr and bool(nz) and ((nz[-1].fact == ("eq", True)) == (nz[-1].term[1] in ("Ne", "Gt")))
+                    ctx.check(okr, "TERM", key, "loop[read-until-eof]%s" % ("" if list(sorted(body.loops)).index(h) == 0 else "#%d" % (sorted(body.loops).index(h) + 1)),
+                              "a read loop that continues only after reading at least one byte",
+                              "the read loop has a way round that did not establish that the read consumed input (n != 0): it can spin at end of input", body.span_of(h))
+                    continue
             if drv is None and cand0 and "array::IntoIter<" in body.blocks[cand0[0]]["term"]["func"]["full"] and not any(p.end[0] == "back" and p.end[1] == h for p in ctx.paths(key)) \
                     and not any(e.kind == "call" and e.bb == cand0[0] for p in ctx.paths(key) for e in p.events):
                 # `for x in [a, b, c]`: the evaluator walked the body once per element of the array literal (no back edge, no symbolic next()):
